@@ -19,14 +19,20 @@ Definition hdr_val (m : message) (f : N) : option (list N) := map_find f (mb_fie
 Definition ex_hb_neg : message :=
   mkMsg (m_type ex_hb) (addf (m_hdr ex_hb) 34 [45; 53]) (m_body ex_hb) (m_trl ex_hb).
 
-Lemma c01_negative_int_refuted_lemma :
-  exists c m b m' b2, render_ok c /\ wf_msg c m = true /\ fresh m = true /\
+(* the context with the rendering of the code BEFORE /repo a8219b1 *)
+Definition ex_ctx_orig : ctx :=
+  mkCtx (c_fields ex_ctx) (c_msgs ex_ctx) (c_header ex_ctx) (c_trailer ex_ctx) (c_hdr_init ex_ctx)
+        (c_trl_init ex_ctx) (c_begin ex_ctx) render_default_orig.
+
+Lemma c01_negative_int_orig_refuted_lemma :
+  exists m b m' b2, render_ok ex_ctx_orig /\ c_render ex_ctx_orig = render_default_orig /\
+    wf_msg ex_ctx_orig m = true /\ fresh m = true /\
     hdr_val m 34 = Some [45; 53] /\                       (* built with "-5" *)
-    roundtrip c m = Ok (b, m', b2) /\
+    roundtrip ex_ctx_orig m = Ok (b, m', b2) /\
     hdr_val m' 34 = Some [45; 50; 53] /\                  (* decoded as "-25" *)
     list_eqb b b2 = false.                                (* and re-encoded differently ("-275") *)
 Proof.
-  exists ex_ctx, ex_hb_neg. do 3 eexists. split; [apply render_default_ok; reflexivity|].
+  exists ex_hb_neg. do 3 eexists. split; [apply render_default_orig_ok; reflexivity|]. split; [reflexivity|].
   split; [vm_compute; reflexivity|]. split; [vm_compute; reflexivity|]. split; [vm_compute; reflexivity|].
   split; [vm_compute; reflexivity|]. split; vm_compute; reflexivity.
 Qed.
@@ -71,7 +77,9 @@ Proof.
   split; [vm_compute; reflexivity|]. split; [vm_compute; reflexivity|]. vm_compute. discriminate.
 Qed.
 
+(* with the repaired fast_atoi a negative int is canonical: the message with MsgSeqNum = "-5" meets
+   every hypothesis of c01_roundtrip_partial *)
 Lemma c01_partial_nonvacuous_lemma :
-  render_ok ex_ctx /\ wf_msg ex_ctx ex_hb = true /\ fresh ex_hb = true /\ vals_canonical ex_ctx ex_hb = true /\
-  c01_flat ex_ctx ex_hb = true.
+  render_ok ex_ctx /\ wf_msg ex_ctx ex_hb_neg = true /\ fresh ex_hb_neg = true /\ vals_canonical ex_ctx ex_hb_neg = true /\
+  c01_flat ex_ctx ex_hb_neg = true /\ hdr_val ex_hb_neg 34 = Some [45; 53].
 Proof. split; [apply render_default_ok; reflexivity|]. repeat split; vm_compute; reflexivity. Qed.
